@@ -375,8 +375,14 @@ def make_scenario(job, groups):
             if "batch" not in groups or not job.get("batch"):
                 return
             reqs = producer._batch_reqs
-            cnt = sum(len(r.messages) for r in reqs)
-            byt = sum(len(m) for r in reqs for m in r.messages if m is not None)
+            # a cancelled send must have left the queue (and with it the threshold accounting): the counts are compared with
+            # the queued sends the *application* still has outstanding
+            for s_ in sends:
+                if s_.cancelled and s_.res:
+                    ctx.check(not any(r.deferred is s_.d for r in reqs), "cancelled-send-leaves-the-queue", "%s: cancelled send %d is still queued" % (where, s_.idx))
+            live_reqs = [r for r in reqs if not any(r.deferred is s_.d and s_.cancelled for s_ in sends)]
+            cnt = sum(len(r.messages) for r in live_reqs)
+            byt = sum(len(m) for r in live_reqs for m in r.messages if m is not None)
             ctx.check(
                 sym_and(producer._waitingMsgCount == cnt, producer._waitingByteCount == byt),
                 "waiting-counts-equal-queue-contents",
